@@ -148,6 +148,14 @@ pub enum Op {
     ConfigObject { text: String },
     /// run a processing pass (L1) / deliver the pending batch (L2)
     Pass,
+    /// the user deletes (`body` = None) or overwrites the generated file `output` - darklua
+    /// is not told, the output location is not watched - and saves `source` again, which
+    /// darklua is told about: the pass has to bring the output back
+    TamperOutput {
+        output: String,
+        body: Option<Body>,
+        source: String,
+    },
     /// the next pass runs with the fail-fast option (L1 only): it may stop at the first
     /// error, so only `bounded` and confinement are demanded of it; equality with a fresh
     /// run is demanded again at the pass after it
